@@ -313,7 +313,14 @@ class Framer(tasking.Tasker):
                                              human=human,
                                              count=count )
             name = "_".join((self.surname, tag))  # replace name with full name
-            clone = original.clone(name=name, tag=tag, schedule=schedule)
+            try:
+                clone = original.clone(name=name, tag=tag, schedule=schedule)
+            except excepting.CloneError as ex:
+                raise excepting.ResolveError("Bad clone, {0}".format(ex.message),
+                                             name=name,
+                                             value=self.name,
+                                             human=human,
+                                             count=count )
             clone.lineage = self.lineage + (original.name, )
             self.auxes[tag] = clone
 
